@@ -924,7 +924,7 @@ impl Check for C04 {
         "C04"
     }
     fn units(&self, tier: Tier, _seed: u64) -> u64 {
-        tier.pick(32, 320) + 1
+        tier.pick(64, 480) + 1
     }
     fn run_unit(&self, unit: u64, ctx: &mut Ctx) {
         let gs = strict();
@@ -1078,8 +1078,8 @@ impl Check for C04 {
         "reference grammar models/grammar.bnf (syntax.md, rule comments of grammar/*.rs win) read at run time, desugared to a CFG. POSITIVE: random derivations (depth budget 8-21, <= 120 tokens) in which the least-used alternative is preferred, so that every alternative and optional part is derived in every unit (coverage reported); each is rendered with blanks, newlines and comments between tokens, must lex back (reference lexer) to the derived terminals, must parse with zero errors, and every derivation constituent that denotes a syntax-tree node must be reached by a walk that uses ONLY the typed accessors of ast.rs, with exactly its token span, lists in source order, paired accessors (then/else, condition/message, name/value, start/end) not swapped. NEGATIVE: 8-20 single/double token deletions, insertions, duplications, transpositions, replacements per sentence; membership is decided by an Earley recogniser over terminal classes for the grammar with the trailing-separator allowance; a non-sentence must yield >= 1 syntax error; mutants that are still strict sentences are further positives. CORPUS: the 39 LLVM files and the hand-written snippets parse with zero errors. non-trivial = every sentence; distinct by text digest".into()
     }
     fn floors(&self, tier: Tier) -> Vec<(&'static str, u64)> {
-        let n = tier.pick(4000, 150_000);
-        vec![("corpus_files", 39), ("sentences", n), ("mutant_non_sentence", n * 4), ("mutant_still_sentence", n / 20), ("constituents_checked", n * 10), ("units_with_full_rule_coverage", tier.pick(16, 160))]
+        let n = tier.pick(12_000, 250_000);
+        vec![("corpus_files", 39), ("sentences", n), ("mutant_non_sentence", n * 4), ("mutant_still_sentence", n / 20), ("constituents_checked", n * 6), ("units_with_full_rule_coverage", tier.pick(32, 240))]
     }
     fn assumptions(&self) -> Vec<String> {
         vec![
